@@ -296,3 +296,25 @@ Definition check_C04_complete (links : list (option nat)) (t : list tev) : bool 
       else true
     | None => true
     end) (seq 0 (length links)).
+
+(* ---------- C03: supervision before messages, on traces ---------- *)
+(* When supervisor s starts a MESSAGE handler, every ActorStarted event that had already been sent
+   to it (the child c is spawn-linked to s and its post_start has returned Ok earlier in the trace)
+   has already been handled by s: a pending supervision event is never overtaken by a user message. *)
+Fixpoint check_C03_sup_first_go (links : list (option nat)) (seen : list tev) (t : list tev) : bool :=
+  match t with
+  | [] => true
+  | e :: r =>
+    match e with
+    | TEnter s (Handle _) =>
+        forallb (fun c =>
+          match nth c links None with
+          | Some s' => negb (Nat.eqb s s') || negb (post_start_ok c seen)
+                       || Nat.ltb 0 (count_sup s (fun y => Nat.eqb (about y) c) seen)
+          | None => true
+          end) (seq 0 (length links))
+    | _ => true
+    end && check_C03_sup_first_go links (seen ++ [e]) r
+  end.
+Definition check_C03_sup_first (links : list (option nat)) (t : list tev) : bool :=
+  check_C03_sup_first_go links [] t.
